@@ -6,6 +6,7 @@ import (
 	"math/bits"
 	"runtime"
 	"sort"
+	"strings"
 
 	"github.com/openacid/low/bitmap"
 
@@ -24,7 +25,13 @@ import (
 // ---------------------------------------------------------------------------
 
 type BuilderPlan struct {
-	Prealloc  int32  `json:"prealloc"`
+	Prealloc int32 `json:"prealloc"`
+	// Dirty > 0: the Builder is not made by NewBuilder but is a literal over a
+	// buffer the caller owns and has used before — &Builder{Words: buf[:0]} with
+	// Dirty words of capacity, all of them non-zero (the type's fields are
+	// exported; an array is recycled this way). A word the Builder grows into
+	// must still start as zero.
+	Dirty int `json:"dirty,omitempty"`
 	Ops       []BOp  `json:"ops"`
 	ProbeSeed uint64 `json:"probe_seed"`
 }
@@ -53,7 +60,31 @@ func (Builder) Decode(raw []byte) (engine.Plan, error) {
 func (Builder) Generate(seed uint64, tier string) engine.Plan {
 	r := engine.NewPRNG(seed)
 	p := &BuilderPlan{ProbeSeed: r.Uint64()}
+	if strings.HasSuffix(tier, "/rare1") && (deep(tier) || r.Chance(1, 4)) {
+		// placed at one run index per 1024 (quick tier: a quarter of those): a history whose running size comes
+		// within the last word below 2^31 (positions and sizes are int32: the
+		// whole range is the statement's domain; a 256 MiB bitmap)
+		top := int64(1<<31 - 1)
+		a := top - r.PickInt64(64, 65, 100, 127, 128, 1000)
+		p.Ops = append(p.Ops, BOp{Op: "extend", Pos: []int32{3, 63, int32(a - 1)}, Size: int32(a)})
+		s2 := top - a - r.PickInt64(0, 0, 1, 2, 31, 40, 62)
+		if s2 < 0 {
+			s2 = 0
+		}
+		op := BOp{Op: "extend", Size: int32(s2)}
+		if s2 > 0 && r.Chance(1, 2) {
+			op.Pos = []int32{int32(s2 - 1)}
+		}
+		p.Ops = append(p.Ops, op)
+		if bit := a + s2 + r.PickInt64(0, 0, 1, 5); bit <= top-1 && r.Chance(2, 3) {
+			p.Ops = append(p.Ops, BOp{Op: "set", Bit: int32(bit), Val: 1})
+		}
+		return p
+	}
 	p.Prealloc = int32(r.PickInt64(0, 0, 1, 64, 1000))
+	if r.Chance(1, 6) {
+		p.Dirty = r.PickInt(1, 2, 3, 16, 17, 1024)
+	}
 	if r.Chance(1, 8) {
 		p.Prealloc = int32(r.PickInt64(1<<15, 1<<15+1, 1<<16, 1<<17)) // 512 words and more
 	}
@@ -253,7 +284,14 @@ func (Builder) Execute(pl engine.Plan, c *engine.RunCtx) *engine.Failure {
 		return fail == nil
 	}
 	var b *bitmap.Builder
-	if !guard(func() string { return "NewBuilder" }, func() { b = bitmap.NewBuilder(p.Prealloc) }) {
+	if p.Dirty > 0 {
+		buf := make([]uint64, p.Dirty)
+		for i := range buf {
+			buf[i] = 0xdeadbeefcafef00d ^ uint64(i)*0x9e3779b97f4a7c15 | 1
+		}
+		b = &bitmap.Builder{Words: buf[:0]}
+		st.Inc("probe.C12.builder_over_a_used_buffer")
+	} else if !guard(func() string { return "NewBuilder" }, func() { b = bitmap.NewBuilder(p.Prealloc) }) {
 		return fail
 	}
 	model := map[int32]struct{}{}
@@ -511,7 +549,11 @@ func probeBitmap(words []uint64, want []int32, seed uint64, step int, c *engine.
 	for _, q := range want {
 		in[q] = true
 	}
-	total := int32(len(words) * 64)
+	total64 := int64(len(words)) * 64
+	total := int32(total64)
+	if total64 > 1<<31-1 {
+		total = 1<<31 - 1 // (2^25 words: every int32 position is inside)
+	}
 	var cand []int32
 	for i, q := range want {
 		if i < 12 || i >= len(want)-12 || engine.H(seed, uint64(step), uint64(i))%8 == 0 {
@@ -520,7 +562,7 @@ func probeBitmap(words []uint64, want []int32, seed uint64, step int, c *engine.
 	}
 	cand = append(cand, 0, 63, 64, total-1)
 	for _, j := range cand {
-		if j < 0 || j >= total {
+		if j < 0 || int64(j) >= total64 {
 			continue
 		}
 		var g, g1, sg, sg1 uint64
@@ -537,7 +579,11 @@ func probeBitmap(words []uint64, want []int32, seed uint64, step int, c *engine.
 			return engine.Failf("C12.get", step, "position %d (member=%d): Get=%#x Get1=%d SafeGet=%#x SafeGet1=%d", j, w, g, g1, sg, sg1)
 		}
 	}
-	for _, j := range []int32{-1, -63, -64, -65, total, total + 1, total + 63, total + 64, 1 << 30, -(1 << 30)} {
+	for _, j64 := range []int64{-1, -63, -64, -65, total64, total64 + 1, total64 + 63, total64 + 64, 1 << 30, -(1 << 30), 1<<31 - 1, -(1 << 31)} {
+		if j64 > 1<<31-1 || j64 < -(1<<31) || (j64 >= 0 && j64 < total64) {
+			continue
+		}
+		j := int32(j64)
 		var sg, sg1 uint64
 		if !guard(func() string { return fmt.Sprintf("SafeGet/SafeGet1(%d) on %d words", j, len(words)) }, func() {
 			sg, sg1 = bitmap.SafeGet(words, j), bitmap.SafeGet1(words, j)
@@ -573,6 +619,11 @@ func (Builder) Shrink(pl engine.Plan) []engine.Plan {
 	if p.Prealloc != 0 {
 		q := clone()
 		q.Prealloc = 0
+		out = append(out, q)
+	}
+	if p.Dirty > 1 {
+		q := clone()
+		q.Dirty = 1
 		out = append(out, q)
 	}
 	for i, op := range p.Ops {
